@@ -663,6 +663,7 @@ void h_seq_latch(void) {
   VF_P(b_walk(&BQ, &aq) && aq.n == 0 && aq.latched, "bounded: latch_and_drain leaves the source latched and empty");
   { _Bool l = AIL_is_latched_impl(&BQ), e = AIL_empty_impl(&BQ); VF_P(AIL_ENS_IS_LATCHED(l, 1) && AIL_ENS_EMPTY(e, 0), "bounded: is_latched() true, empty() true afterwards"); }
   VF_P(b_walk(&BT, &at) && at.n == k, "bounded: latch_and_drain moves ALL items to the target");
+  VF_P(AIL_ENS_LATCH_AND_DRAIN(0, k, aq.n, at.n, aq.latched), "bounded: latch_and_drain contract (not latched before: all items taken, source latched and empty)");
   for (unsigned i = 0; i < k; i++) VF_P(at.a[i] == before.a[i], "bounded: latch_and_drain keeps the order");
   { struct node* pr = AIL_pop_front_impl(&BQ); VF_P(pr == NULL, "bounded: pop_front on a latched list returns NULL"); }
   { _Bool pu = AIL_push_front_unless_latched_impl(&BQ, &XN); VF_P(AIL_ENS_PUSH_UNLESS_LATCHED(pu, 1) && XN.self == NULL, "bounded: push_front_unless_latched on a latched list returns false and leaves the item alone"); }
@@ -671,10 +672,12 @@ void h_seq_latch(void) {
     static struct ail BT2; b_empty(&BT2);
     B_latch_and_drain_impl(&BQ, &BT2);
     struct seq a2; VF_P(b_walk(&BQ, &aq) && aq.latched && b_walk(&BT2, &a2) && a2.n == 0, "bounded: latch_and_drain on a latched list changes nothing");
+    VF_P(AIL_ENS_LATCH_AND_DRAIN(1, 0, aq.n, a2.n, aq.latched), "bounded: latch_and_drain contract (already latched)");
     VF_CANARY("bounded second latch");
   } else {
     AIL_unlatch_impl(&BQ);
     { _Bool l = AIL_is_latched_impl(&BQ); VF_P(b_walk(&BQ, &aq) && aq.n == 0 && !aq.latched && !l, "bounded: unlatch clears the latch, list empty and well formed"); }
+    VF_P(AIL_ENS_UNLATCH(0, aq.n, aq.latched), "bounded: unlatch contract");
     { _Bool pu = AIL_push_front_unless_latched_impl(&BQ, &XN); VF_P(AIL_ENS_PUSH_UNLESS_LATCHED(pu, 0), "bounded: push_front_unless_latched on an unlatched list returns true"); }
     VF_P(b_walk(&BQ, &aq) && aq.n == 1 && aq.a[0] == &XN, "bounded: ... and the item is in the list");
     AIL_unlatch_impl(&BQ);
